@@ -67,6 +67,14 @@ class IntroduceParameter:
             raise exceptions.RefactoringError(
                 "The function already uses the name <%s>" % new_parameter
             )
+        # the new default value is evaluated where the function is defined:
+        # it cannot refer to a parameter or local variable of the function
+        root = self._get_primary().split(".")[0].split("(")[0].split("[")[0].strip()
+        if root in local_names:
+            raise exceptions.RefactoringError(
+                "<%s> depends on <%s>, which is local to the function"
+                % (self._get_primary(), root)
+            )
         definition_info = functionutils.DefinitionInfo.read(self.pyfunction)
         definition_info.args_with_defaults.append((new_parameter, self._get_primary()))
         collector = codeanalyze.ChangeCollector(self.resource.read())
